@@ -3,6 +3,8 @@ from __future__ import annotations
 
 from fractions import Fraction
 
+import math
+
 import numpy as np
 
 import common as C
@@ -57,6 +59,11 @@ def gen(ctx):
         spec = M.random_spec(rng, [which])
         dm = {"matrix": mat, "objectives": G.objectives(rng, n), "weights": w, "alternatives": G.labels(rng, G.LABEL_POOL_ALT, m),
               "criteria": G.labels(rng, G.LABEL_POOL_CRIT, n), "family": fam}
+        if rng.random() < 0.1:
+            # the same kind of problem stored as narrow / unsigned integers: differences must not be taken in that dtype
+            dm = M.narrow_int_variant(rng, dm)
+            s = sum(dm["weights"])
+            dm["weights"] = [wj / 2 ** math.ceil(math.log2(s)) for wj in dm["weights"]]  # exact rescaling into (0.5, 1]: still dyadic
         cases.append({"spec": spec, "dm": dm})
     return cases
 
